@@ -609,6 +609,8 @@ def rule_coriolis(chk, prog):
 
 
 def run(chk, prog, tier):
+  from rules import c01 as _c01m
+  _c01m.rule_metric(chk, prog, rule='C05.6-metric-factors')
   from rules import c01 as _c01
   _c01.rule_shared_state(chk, prog, rule='C05.5-shared-arrays-never-updated-in-place')
   rule_inventory(chk, prog)
